@@ -24,6 +24,18 @@
 /*@unit {'name':'c17_shift_limits_a3', 'props':['C17'], 'entry':'h_limits', 'kind':'bounded', 'unwind':5, 'backend':'cadical', 'timeout':1200, 'defines':['LIMITS','AXIS=3'],
   'bound':'limit rectangle, current offset, current shift and the chosen position are multiples of 1/2 (position of the parity the axis produces) with magnitude <= 4, where single precision is exact; the target glyph already inside its limit; axis 3; right-to-left (no x mirroring)',
   'claims':'clause 1 end to end for one fixing step: ShiftCollider::initSlot gives the interval set of axis i the bounds [mn,mx] such that ANY position p in [mn,mx], turned into a shift by ShiftCollider::resolve (tbase subtraction and axis conversion, both extracted), keeps the shift inside the limit rectangle minus the current offset, i.e. the accumulated collision offset inside the limit rectangle'}@*/
+/*@unit {'name':'c17_merge_reach_a0', 'props':['C17'], 'entry':'h_reach', 'kind':'bounded', 'unwind':18, 'backend':'cadical', 'timeout':900, 'defines':['REACH','AXIS=0'],
+  'bound':'limit rectangle, current offset/shift, glyph boxes and neighbour position are multiples of 1/2 with magnitude <= 4 (single precision is exact there); axis 0; the boxes of the neighbour are zero (they do not enter cmin, cmax)',
+  'claims':'clause 2, reach test of ShiftCollider::mergeSlot (the per-axis switch, extracted): for every shift (x,y) inside the limit rectangle the coordinate of the shifted target on axis i (x, y, x+y, x-y, plus the current offset on that axis) lies in [cmin,cmax], so the early-out `vmax < cmin - margin || vmin > cmax + margin` can only skip a neighbour that the target cannot reach inside its limit rectangle (a neighbour within reach is never ignored)'}@*/
+/*@unit {'name':'c17_merge_reach_a1', 'props':['C17'], 'entry':'h_reach', 'kind':'bounded', 'unwind':18, 'backend':'cadical', 'timeout':900, 'defines':['REACH','AXIS=1'],
+  'bound':'limit rectangle, current offset/shift, glyph boxes and neighbour position are multiples of 1/2 with magnitude <= 4 (single precision is exact there); axis 1; the boxes of the neighbour are zero (they do not enter cmin, cmax)',
+  'claims':'clause 2, reach test of ShiftCollider::mergeSlot (the per-axis switch, extracted): for every shift (x,y) inside the limit rectangle the coordinate of the shifted target on axis i (x, y, x+y, x-y, plus the current offset on that axis) lies in [cmin,cmax], so the early-out `vmax < cmin - margin || vmin > cmax + margin` can only skip a neighbour that the target cannot reach inside its limit rectangle (a neighbour within reach is never ignored)'}@*/
+/*@unit {'name':'c17_merge_reach_a2', 'props':['C17'], 'entry':'h_reach', 'kind':'bounded', 'unwind':18, 'backend':'cadical', 'timeout':900, 'defines':['REACH','AXIS=2'],
+  'bound':'limit rectangle, current offset/shift, glyph boxes and neighbour position are multiples of 1/2 with magnitude <= 4 (single precision is exact there); axis 2; the boxes of the neighbour are zero (they do not enter cmin, cmax)',
+  'claims':'clause 2, reach test of ShiftCollider::mergeSlot (the per-axis switch, extracted): for every shift (x,y) inside the limit rectangle the coordinate of the shifted target on axis i (x, y, x+y, x-y, plus the current offset on that axis) lies in [cmin,cmax], so the early-out `vmax < cmin - margin || vmin > cmax + margin` can only skip a neighbour that the target cannot reach inside its limit rectangle (a neighbour within reach is never ignored)'}@*/
+/*@unit {'name':'c17_merge_reach_a3', 'props':['C17'], 'entry':'h_reach', 'kind':'bounded', 'unwind':18, 'backend':'cadical', 'timeout':900, 'defines':['REACH','AXIS=3'],
+  'bound':'limit rectangle, current offset/shift, glyph boxes and neighbour position are multiples of 1/2 with magnitude <= 4 (single precision is exact there); axis 3; the boxes of the neighbour are zero (they do not enter cmin, cmax)',
+  'claims':'clause 2, reach test of ShiftCollider::mergeSlot (the per-axis switch, extracted): for every shift (x,y) inside the limit rectangle the coordinate of the shifted target on axis i (x, y, x+y, x-y, plus the current offset on that axis) lies in [cmin,cmax], so the early-out `vmax < cmin - margin || vmin > cmax + margin` can only skip a neighbour that the target cannot reach inside its limit rectangle (a neighbour within reach is never ignored)'}@*/
 typedef struct Position { float x, y; } Position;
 typedef struct Rect { Position bl, tr; } Rect;
 typedef struct Segment Segment; typedef struct Slot Slot; typedef struct json json;
@@ -134,6 +146,48 @@ void h_limits(void)
     Position t = ShiftCollider_axis_to_shift(&sc, axis, bestPos);
     __CPROVER_assert(sc._limit.bl.x <= t.x && t.x <= sc._limit.tr.x, "the shift keeps the accumulated x offset inside the limit rectangle");
     __CPROVER_assert(sc._limit.bl.y <= t.y && t.y <= sc._limit.tr.y, "the shift keeps the accumulated y offset inside the limit rectangle");
+    CANARY();
+}
+#endif
+
+#ifdef REACH
+typedef struct ShiftCollider { Rect _limit; Position _currShift, _currOffset; float _margin; } ShiftCollider;
+typedef struct BBoxS { float xi, yi, xa, ya; } BBox; typedef struct SlantBoxS { float si, di, sa, da; } SlantBox;
+#define ISQRT2 0.707106781f
+typedef struct AxisOut { float vmin, vmax, omin, omax, otmin, otmax, cmin, cmax, torg, lmargin; } AxisOut;
+/* the per-axis switch of ShiftCollider::mergeSlot ("Process main bounding octabox"), extracted as a range */
+/*@extract {'file':'src/Collider.cpp', 'kind':'range', 'scope': r'bool ShiftCollider::mergeSlot\(Segment \*seg, Slot \*slot, const SlotCollision \*cslot, const Position &currShift,',
+   'start': r'switch \(i\) \{\s*case 0 :\s*// x direction\s*vmin', 'end': r'default :\s*continue;\s*\}', 'end_inclusive': True,
+   'pre':'static AxisOut ShiftCollider_mergeSlot_axis(const ShiftCollider *self, int i, const BBox bb, const BBox tbb, const SlantBox sb, const SlantBox tsb, float sx, float sy, float sd, float ss, float tx, float ty, float td, float ts)\n{\n    float vmin = 0, vmax = 0, omin = 0, omax = 0, otmin = 0, otmax = 0, cmin = 0, cmax = 0, torg = 0, lmargin = 0;\n',
+   'post':'\n    AxisOut o; o.vmin = vmin; o.vmax = vmax; o.omin = omin; o.omax = omax; o.otmin = otmin; o.otmax = otmax; o.cmin = cmin; o.cmax = cmax; o.torg = torg; o.lmargin = lmargin; return o;\n}\n',
+   'subs':[[r'\bmin\(', 'min_f(', 0], [r'\bmax\(', 'max_f(', 0], [r'continue;', 'break;', 0]],
+   'self':['_limit','_currOffset','_currShift','_margin']}@*/
+int nondet_int(void);
+#define H(k) (0.5f * (float)(k))
+#define R(v) ((v) >= -8 && (v) <= 8)
+void h_reach(void)
+{
+    ShiftCollider sc; BBox bb, tbb; SlantBox sb, tsb;
+    int blx = nondet_int(), bly = nondet_int(), trx = nondet_int(), try_ = nondet_int(), ox = nondet_int(), oy = nondet_int(), cx = nondet_int(), cy = nondet_int();
+    int gx = nondet_int(), gy = nondet_int(), axis = nondet_int(), nsx = nondet_int(), nsy = nondet_int();
+    int b[16];
+    __CPROVER_assume(R(blx) && R(bly) && R(trx) && R(try_) && R(ox) && R(oy) && R(cx) && R(cy) && R(nsx) && R(nsy) && axis == AXIS);
+    __CPROVER_assume(blx <= trx && bly <= try_);                                   /* a well-formed limit rectangle */
+    for (int k = 0; k < 16; ++k) { b[k] = nondet_int(); __CPROVER_assume(R(b[k])); if (k < 8) b[k] = 0; }
+    bb.xi = H(b[0]); bb.yi = H(b[1]); bb.xa = H(b[2]); bb.ya = H(b[3]); sb.si = H(b[4]); sb.di = H(b[5]); sb.sa = H(b[6]); sb.da = H(b[7]);
+    tbb.xi = H(b[8]); tbb.yi = H(b[9]); tbb.xa = H(b[10]); tbb.ya = H(b[11]); tsb.si = H(b[12]); tsb.di = H(b[13]); tsb.sa = H(b[14]); tsb.da = H(b[15]);
+    __CPROVER_assume(b[8] <= b[10] && b[9] <= b[11] && b[12] <= b[14] && b[13] <= b[15]);      /* the target's boxes are well-formed (min <= max) */
+    sc._limit.bl.x = H(blx); sc._limit.bl.y = H(bly); sc._limit.tr.x = H(trx); sc._limit.tr.y = H(try_);
+    sc._currOffset = mkpos(H(ox), H(oy)); sc._currShift = mkpos(H(cx), H(cy)); sc._margin = 1.0f;
+    const float sx = H(nsx), sy = H(nsy), tx = sc._currOffset.x + sc._currShift.x, ty = sc._currOffset.y + sc._currShift.y;
+    AxisOut o = ShiftCollider_mergeSlot_axis(&sc, axis, bb, tbb, sb, tsb, sx, sy, sx - sy, sx + sy, tx, ty, tx - ty, tx + ty);
+    /* ghost: any shift (x,y) of the target inside its limit rectangle (_limit is relative to the current offset, see initSlot) */
+    __CPROVER_assume(blx <= gx && gx <= trx && bly <= gy && gy <= try_);
+    const float x = H(gx), y = H(gy);
+    float c = axis == 0 ? x + sc._currOffset.x : axis == 1 ? y + sc._currOffset.y : axis == 2 ? (x + y) + (sc._currOffset.x + sc._currOffset.y) : (x - y) + (sc._currOffset.x - sc._currOffset.y);
+    __CPROVER_assert(o.cmin <= c, "reach: a position the target can take inside its limit rectangle is not below cmin on this axis");
+    __CPROVER_assert(c <= o.cmax, "reach: a position the target can take inside its limit rectangle is not above cmax on this axis");
+    __CPROVER_assert(o.lmargin > 0, "the margin used by the reach test is positive");
     CANARY();
 }
 #endif
